@@ -50,7 +50,7 @@ func newConf(u *Universe) *config.Config {
 	conf := config.New()
 	conf.FelixHostname = localHost
 	conf.BPFEnabled = true // as in the repository's own FV wiring: enables the L3 route resolver
-	conf.Encapsulation = config.Encapsulation{VXLANEnabled: true}
+	conf.Encapsulation = config.Encapsulation{VXLANEnabled: true, VXLANEnabledV6: u.V6}
 	if u.NFT {
 		conf.NFTablesMode = "Enabled"
 	} else {
